@@ -244,14 +244,16 @@ def stepMain (i : SInput) (s : CSt) : CSt :=
 def enabledC (i : SInput) (s : CSt) (t : Nat) : Bool :=
   if t = 0 then mainEnabled i s else decide (t - 1 < s.nsp) && enabled s.base t
 
+/-- `ExtendedToStreamDecorator.startTestRun`: forward (the `put`), then `self.shouldStop = False` -/
+def flagsAfter (s : CSt) (t : Nat) : List Bool :=
+  match s.base.pcs[t]? with
+  | some (.put (.startRun w) :: _) => s.flags.set w false
+  | _ => s.flags
+
 /-- thread `t` takes its next step (a no-op if it is not started, finished or blocked) -/
 def stepC (i : SInput) (s : CSt) (t : Nat) : CSt :=
   if t = 0 then (if mainEnabled i s then stepMain i s else s)
-  else if t - 1 < s.nsp then
-    { s with base := stepThread s.base t,
-             flags := match s.base.pcs[t]? with
-               | some (.put (.startRun w) :: _) => s.flags.set w false     -- ETSD.startTestRun: put, then shouldStop = False
-               | _ => s.flags }
+  else if t - 1 < s.nsp then { s with base := stepThread s.base t, flags := flagsAfter s t }
   else s
 
 def runC (i : SInput) (s : CSt) (sched : List Nat) : CSt := sched.foldl (stepC i) s
